@@ -325,30 +325,9 @@ func compareLayouts(enc, dec []layItem, used map[string]bool, flagOff int64) str
 	return ""
 }
 
-// flagsOffset: index k in decodeFlags(buf[k]).
+// flagsOffset: index k of the flags octet in the body (decodeFlags(buf[k]) or buf[k] masked in place).
 func (cm *codecModel) flagsOffset(tname string) int64 {
-	u := cm.method(tname, "Unpack")
-	off := int64(-1)
-	if u == nil {
-		return off
-	}
-	allInstrs(u, func(i ssa.Instruction) {
-		ci, ok := i.(ssa.CallInstruction)
-		if !ok {
-			return
-		}
-		g := staticCallee(ci.Common())
-		if g == nil || !strings.HasSuffix(g.Name(), "decodeFlags") || len(ci.Common().Args) < 2 {
-			return
-		}
-		if l, ok := ci.Common().Args[1].(*ssa.UnOp); ok && l.Op == token.MUL {
-			if ia, ok := l.X.(*ssa.IndexAddr); ok {
-				if k, ok := constInt(ia.Index); ok {
-					off = k
-				}
-			}
-		}
-	})
+	_, _, off := cm.flagDecoder(tname)
 	return off
 }
 
@@ -491,7 +470,7 @@ func (cm *codecModel) checkHeader(r *Report, rule string) {
 			continue
 		}
 		cells := outs[0].Cells
-		pl := cells["f:packets.Header.pktLength"]
+		pl := cells["f:packets.Header.packetLength"]
 		bad := ""
 		if !pl.known || pl.i != total {
 			bad += fmt.Sprintf("SetVarPartLength(%d) sets packet length %s, expected %d; ", L, pl, total)
@@ -529,7 +508,7 @@ func (cm *codecModel) checkHeader(r *Report, rule string) {
 		for k, v := range cells {
 			cells3[k] = v
 		}
-		cells3["f:packets.Header.pktType"] = kint(0x0C)
+		cells3["f:packets.Header.packetType"] = kint(0x0C)
 		o3 := e3.Explore(ptb, cells3, nil)
 		if len(o3) == 1 {
 			writes = o3[0].Events
@@ -923,7 +902,8 @@ func checkC22(c *Ctx, r *Report) {
 		}
 		name := strings.TrimPrefix(t, "*packets1.")
 		key := name + ":flag-bits"
-		pos := c.pos(cm.method(t, "decodeFlags").Pos())
+		fdec, _, _ := cm.flagDecoder(t)
+		pos := c.pos(fdec.Pos())
 		if bad != "" {
 			r.undecided("R1", key, pos, bad)
 			continue
